@@ -193,8 +193,20 @@ func VerifC13_Archive() {
 	if vTier() > 0 {
 		maxFan = 6
 	}
+	nfiles := 0
 	mk := func(path, name string, mode os.FileMode, size int) *File {
 		f := &File{Name: name, Path: path, Mode: mode, Uid: vInt("uid"), Gid: 5, ModTime: time.Unix(0, vI64("mtime"))}
+		nx := 0
+		if nfiles < 2 || vTier() > 0 { // quick: only the root and its first child carry xattrs
+			nx = vChoose("xattrs", 3)
+		}
+		nfiles++
+		switch nx { // extended attributes add elements between the entry and its content
+		case 1:
+			f.Xattrs = map[string]string{"user.a": vStr("xattr-value", 2)}
+		case 2:
+			f.Xattrs = map[string]string{"user.b": "x", "user.a": vStr("xattr-value", 1)}
+		}
 		switch {
 		case mode.IsRegular():
 			f.Size = uint64(size)
